@@ -63,6 +63,14 @@ fn main() {
         // 14, 28 are capacities of hashbrown tables (16 and 32 buckets), 20 is not
         prof.fit = [20, 14, 28][(arg(&args, "--seed").and_then(|s| s.parse::<u64>().ok()).unwrap_or(1) % 3) as usize];
     }
+    if let Some(f) = arg(&args, "--fit").and_then(|s| s.parse::<usize>().ok()) {
+        prof.fit = f;
+    }
+    if args.iter().any(|a| a == "--uniform") {
+        // all entries the same size: the number of entries stays exactly at `fit`
+        prof.vmax = 0;
+        prof.kheaps = vec![0];
+    }
     let crash_rate: f64 = arg(&args, "--crash-rate").and_then(|s| s.parse().ok()).unwrap_or(0.0);
     let forget_rate: f64 = arg(&args, "--forget-rate").and_then(|s| s.parse().ok()).unwrap_or(0.0);
     let segment: u64 = arg(&args, "--segment").and_then(|s| s.parse().ok()).unwrap_or(400);
@@ -193,6 +201,13 @@ fn main() {
                 rng.gen_range(1..=prof.universe)
             };
             let mut r = rng.gen_range(0..1000);
+            // the table is exactly full (no growth budget left): the moment at which capacity
+            // and eviction logic interact - react to it half of the time with a limit change, a
+            // growing mutate or a capacity operation instead of a random call
+            let exactly_full = len >= 3 && len == cap;
+            if exactly_full && rng.gen_bool(0.5) {
+                r = [720, 350, 810, 830, 850, 870][rng.gen_range(0..6)];
+            }
             if calm && (620..720).contains(&r) && rng.gen_bool(0.6) { r = rng.gen_range(0..300); }
             if calm && (400..620).contains(&r) && rng.gen_bool(0.4) { r = rng.gen_range(0..300); }
             let mut o;
@@ -234,7 +249,8 @@ fn main() {
             }
             else if r < 770 {
                 o = op("set_max_size", c);
-                let pick = if pname == "huge" { if rng.gen_bool(0.3) { 1 } else { 7 } }
+                let pick = if exactly_full && pname != "huge" { [3, 5, 5, 2][rng.gen_range(0..4)] }
+                           else if pname == "huge" { if rng.gen_bool(0.3) { 1 } else { 7 } }
                            else if prof.calm > 0.5 && rng.gen_bool(0.7) { if rng.gen_bool(0.2) { 1 } else { 7 } }
                            else { rng.gen_range(0..8) };
                 let m: i64 = match pick {
